@@ -91,7 +91,9 @@ class RectanglePixelRegion(PixelRegion):
 
     @property
     def area(self):
-        return self.width * self.height
+        # float: the product of two (narrow) NumPy integer sizes may not
+        # fit their type
+        return float(self.width) * float(self.height)
 
     def contains(self, pixcoord):
         cos_angle = np.cos(self.angle)
